@@ -105,13 +105,19 @@ func c11Check(c c11Case) fw.Outcome {
 			valid = false
 		}
 	}
+	// a hole that sticks out of its exterior's box is not a valid polygon; whether Rect() must cover it is left
+	// unasserted (the library boxes the exterior), Valid() and Empty() are still asserted
+	boxAsserted := c.Spec.holesInsideBox()
+	if !boxAsserted {
+		label += "/hole-outside-exterior-box"
+	}
 	r := obj.Rect()
-	if r.Min.X != minX || r.Min.Y != minY || r.Max.X != maxX || r.Max.Y != maxY {
+	if boxAsserted && (r.Min.X != minX || r.Min.Y != minY || r.Max.X != maxX || r.Max.Y != maxY) {
 		return fw.Failf(label, "Rect() = %v, min/max over the positions give [%v %v] [%v %v]; object %s", r, minX, minY, maxX, maxY, obj.JSON())
 	}
 	// Center: the position itself for points, else the box's midpoint (same single expression; skipped on overflow)
 	cx, cy := (maxX+minX)/2, (maxY+minY)/2
-	if !math.IsInf(cx, 0) && !math.IsInf(cy, 0) {
+	if boxAsserted && !math.IsInf(cx, 0) && !math.IsInf(cy, 0) {
 		if got := obj.Center(); got.X != cx || got.Y != cy {
 			return fw.Failf(label, "Center() = %v, midpoint of the box is (%v,%v); object %s", got, cx, cy, obj.JSON())
 		}
@@ -178,6 +184,10 @@ func genRingsFinite(t *rapid.T) [][]fpt {
 				y = minY
 			}
 			hole = append(hole, fpt{F(x), F(y)})
+		}
+		if len(hole) > 0 && rapid.IntRange(0, 9).Draw(t, "holeout") == 0 {
+			// a hole position outside the exterior's box (possibly out of range): only Valid / Empty are asserted then
+			hole[rapid.IntRange(0, len(hole)-1).Draw(t, "hoi")] = fpt{genFinite(t, "hox"), genFinite(t, "hoy")}
 		}
 		rings = append(rings, hole)
 	}
@@ -299,6 +309,31 @@ func (s *objSpec) allPositionsValid() bool {
 	}
 	for i := range s.Children {
 		if !s.Children[i].allPositionsValid() {
+			return false
+		}
+	}
+	return true
+}
+
+// holesInsideBox reports whether every hole position of every polygon lies inside its exterior's box (then
+// the library's exterior-only box equals the box of all positions).
+func (s *objSpec) holesInsideBox() bool {
+	if s.Kind == "Polygon" && len(s.Rings) > 1 && len(s.Rings[0]) > 0 {
+		minX, minY, maxX, maxY := math.Inf(1), math.Inf(1), math.Inf(-1), math.Inf(-1)
+		for _, p := range s.Rings[0] {
+			minX, maxX = math.Min(minX, float64(p.X)), math.Max(maxX, float64(p.X))
+			minY, maxY = math.Min(minY, float64(p.Y)), math.Max(maxY, float64(p.Y))
+		}
+		for _, h := range s.Rings[1:] {
+			for _, p := range h {
+				if float64(p.X) < minX || float64(p.X) > maxX || float64(p.Y) < minY || float64(p.Y) > maxY {
+					return false
+				}
+			}
+		}
+	}
+	for i := range s.Children {
+		if !s.Children[i].holesInsideBox() {
 			return false
 		}
 	}
